@@ -108,6 +108,81 @@ theorem first_error_stops_worker (o₁ o₂ : List Bool) (h : true ∉ o₁) :
     | true => simp at h
     | false => simp at h; simp [workerHandled, ih h]
 
+/-! ### cancellation of the caller's context (the runner as a scheduled system, `RunSt`)
+
+  `sched` ranges over ALL schedules: any interleaving of producer, workers and handler returns, any choice among
+  ready `select` cases, the caller's `cancel` at any point (or several times, or never). -/
+
+/-- FULL statement: whenever RunOnRange returns nil, the handler was called on every sub-range.
+    It is FALSE for the code that exists (`nil_result_implies_complete_fails`): the producer's
+    `case <-ctx.Done(): break Loop` records nothing, so if it is taken while the channel is empty and no handler
+    notices the cancellation, every worker leaves with a nil error. -/
+def nil_result_implies_complete : Prop :=
+  ∀ (tasks : List Task) (workers : Nat), 1 ≤ workers → ∀ sched : List RunEv,
+    ((RunSt.init tasks workers).run sched).done = true → ((RunSt.init tasks workers).run sched).resultNil = true →
+    ∀ t ∈ tasks, t ∈ ((RunSt.init tasks workers).run sched).handled
+
+/-- What holds for every schedule and every cancel point: a nil result implies that the handler was called on
+    every sub-range, unless the producer left its loop through `ctx.Done()` with sub-ranges not yet pushed. -/
+theorem nil_result_implies_complete_partial (tasks : List Task) (workers : Nat) (hw : 1 ≤ workers)
+    (sched : List RunEv)
+    (hdone : ((RunSt.init tasks workers).run sched).done = true)
+    (hnil : ((RunSt.init tasks workers).run sched).resultNil = true)
+    (hab : ((RunSt.init tasks workers).run sched).abandoned = false) :
+    ∀ t ∈ tasks, t ∈ ((RunSt.init tasks workers).run sched).handled := by
+  have hinv := runInv_run (tasks := tasks) (workers := workers) sched (runInv_init tasks workers)
+  generalize (RunSt.init tasks workers).run sched = st at *
+  obtain ⟨ha, hb, hc, hd⟩ := hinv
+  simp only [RunSt.done, Bool.and_eq_true, beq_iff_eq] at hdone
+  simp only [RunSt.resultNil, beq_iff_eq] at hnil
+  obtain ⟨⟨hcl, hi⟩, hbz⟩ := hdone
+  have hok : 0 < st.okExit := by omega
+  have hq := (hc hok).2
+  have hp := ha hcl hab
+  intro t ht
+  rcases hb with h | h | h
+  · omega
+  · rw [hab] at h; cases h
+  · rcases h t ht with h | h | h
+    · exact h
+    · rw [hq] at h; cases h
+    · rw [hp] at h; cases h
+
+example : ((RunSt.init [⟨[], [0x6d]⟩, ⟨[0x6d], []⟩] 1).run
+    [.push, .pull, .push, .finish false, .pull, .cancel, .finish false, .pull]).done = true := by decide
+
+/-- … and the full statement fails: cancel, producer takes `ctx.Done()`, the idle worker finds the channel closed. -/
+theorem nil_result_implies_complete_fails : ¬ nil_result_implies_complete := by
+  intro h
+  have := h [⟨[], []⟩] 1 (Nat.le_refl 1) [.cancel, .abandon, .pull] (by decide) (by decide) ⟨[], []⟩ (by simp)
+  revert this; decide
+
+/-- If the caller's context is cancelled while a sub-range sits in the channel, RunOnRange cannot return nil,
+    whatever happens afterwards: a worker that pulls a sub-range under a done context keeps `ctx.Err()`.
+    (`st₀` is any state reached before the cancellation.) -/
+theorem cancel_with_queued_subrange_reported (tasks : List Task) (workers : Nat) (hw : 1 ≤ workers)
+    (before after : List RunEv)
+    (hq : ((RunSt.init tasks workers).run before).queue ≠ [])
+    (hdone : ((RunSt.init tasks workers).run (before ++ .cancel :: after)).done = true) :
+    ((RunSt.init tasks workers).run (before ++ .cancel :: after)).resultNil = false := by
+  have hinv := runInv_run (tasks := tasks) (workers := workers) (before ++ .cancel :: after) (runInv_init tasks workers)
+  have hk : 0 < ((RunSt.init tasks workers).run (before ++ .cancel :: after)).errExit ∨
+      (((RunSt.init tasks workers).run (before ++ .cancel :: after)).queue ≠ [] ∧
+        ((RunSt.init tasks workers).run (before ++ .cancel :: after)).cancelled = true) := by
+    simp only [RunSt.run, List.foldl_append, List.foldl_cons]
+    exact queued_run after (.inr ⟨hq, rfl⟩)
+  generalize (RunSt.init tasks workers).run (before ++ .cancel :: after) = st at *
+  obtain ⟨_, _, hc, hd⟩ := hinv
+  simp only [RunSt.done, Bool.and_eq_true, beq_iff_eq] at hdone
+  obtain ⟨⟨_, hi⟩, hbz⟩ := hdone
+  simp only [RunSt.resultNil, beq_eq_false_iff_ne, ne_eq]
+  intro he
+  rcases hk with h | h
+  · omega
+  · exact h.1 (hc (by omega)).2
+
+example : ((RunSt.init [⟨[], [0x6d]⟩, ⟨[0x6d], []⟩] 1).run [.push, .pull, .push]).queue ≠ [] := by decide
+
 /-- DeleteRangeTask: the successful per-region DeleteRange requests are pairwise disjoint and their union is
     exactly `[s, e)`, whatever the layouts seen by RunOnRange and by each sendReqOnRange call; hence the store
     keeps exactly the keys outside `[s, e)`. -/
